@@ -9,6 +9,7 @@ import (
 	"os"
 	"os/exec"
 	"path/filepath"
+	"runtime/debug"
 	"sort"
 	"strings"
 	"sync"
@@ -78,6 +79,11 @@ func cmdWorker(args []string) int {
 	maxViol := fs.Int("maxviol", 3, "")
 	fs.Parse(args)
 
+	if *prop == "C14" {
+		// The deterministic part of C14 places every collection itself (operation boundaries and hook points);
+		// the collector's own concurrent schedule is the business of the separate gc-stress probe.
+		debug.SetGCPercent(-1)
+	}
 	out := bufio.NewWriter(os.Stdout)
 	emit := func(m workerMsg) {
 		b, _ := json.Marshal(m)
@@ -520,8 +526,8 @@ func cmdRun(args []string) int {
 				a.Lock()
 				ls := a.lastStart[i]
 				tail := stderr.String()
-				if len(tail) > 3000 {
-					tail = tail[len(tail)-3000:]
+				if len(tail) > 6000 {
+					tail = tail[:4500] + "\n[...]\n" + tail[len(tail)-1500:]
 				}
 				a.Unlock()
 				var rep *workerMsg
